@@ -206,7 +206,18 @@ fn check_doc(doc: &V, texts: &[(Style, String)], evals: &mut u64) -> Result<usiz
                 (format!("{}: {}", what, e), sig)
             })?;
             if got != *doc {
-                return Err((format!("{}: loaded document {} differs from the written one {}", what, got.to_json(), doc.to_json()), sig_for(doc, "dump-differs")));
+                // the integer spelling `-0` of JSON (never written by the generators; replay only):
+                // serde_json keeps the sign by making it a float
+                fn same_but_negzero(a: &V, b: &V) -> bool {
+                    match (a, b) {
+                        (V::Float(f), V::Int(0)) => *f == 0.0 && f.is_sign_negative(),
+                        (V::List(x), V::List(y)) => x.len() == y.len() && x.iter().zip(y).all(|(p, q)| same_but_negzero(p, q)),
+                        (V::Map(x), V::Map(y)) => x.len() == y.len() && x.iter().zip(y).all(|((k, p), (l, q))| k == l && same_but_negzero(p, q)),
+                        _ => a == b,
+                    }
+                }
+                let sig = if via == "library" && style.ext() == "json" && same_but_negzero(&got, doc) { "c11:dump-differs:json-integer-negative-zero:library".to_string() } else { sig_for(doc, "dump-differs") };
+                return Err((format!("{}: loaded document {} differs from the written one {}", what, got.to_json(), doc.to_json()), sig));
             }
             // probe battery
             if nprobes > 0 {
@@ -268,7 +279,67 @@ fn check_doc(doc: &V, texts: &[(Style, String)], evals: &mut u64) -> Result<usiz
     Ok(combos)
 }
 
+// ------------------------------------------------------------------------------------------------
+// stage: spellings of JSON numbers that the writers never use; every loader reads the same typed value
+
+const NUMBER_SPELLINGS: [&str; 14] = ["-0", "0", "-0.0", "0e0", "1E5", "1e5", "1e+5", "0.1e1", "1e-2", "1.0", "10", "-1", "1.50", "123456789012345678"];
+
+fn spelling_value(s: &str) -> V {
+    match s.parse::<i64>() {
+        Ok(i) => V::Int(i),
+        Err(_) => V::Float(s.parse::<f64>().unwrap()),
+    }
+}
+
+fn spelling_check(i: usize) -> CaseResult {
+    let sp = NUMBER_SPELLINGS[i % NUMBER_SPELLINGS.len()];
+    let json_like = (i / NUMBER_SPELLINGS.len()) % 2 == 0;
+    let v = spelling_value(sp);
+    let doc = V::Map(vec![("a".into(), v.clone()), ("b".into(), V::List(vec![v.clone(), V::s("x")]))]);
+    let text = if json_like { format!("{{\"a\": {}, \"b\": [{}, \"x\"]}}", sp, sp) } else { format!("a: {}\nb:\n  - {}\n  - x\n", sp, sp) };
+    let case = json!({"kind": "spelling", "index": i});
+    let mut evals = 0;
+    let fail = |msg: String, sig: String| CaseResult::Fail(Failure { msg, sig, case: case.clone() });
+    for via in ["payload", if json_like { "json" } else { "yaml" }, "library"] {
+        match load_dump(&text, via, &mut evals) {
+            Ok(got) if got == doc => {}
+            Ok(got) => {
+                let sig = if via == "library" && json_like && sp == "-0" { "c11:dump-differs:json-integer-negative-zero:library".to_string() } else { format!("c11:number-spelling:{}", via) };
+                return fail(format!("the number spelling `{}` ({}) via {}: loaded as {} instead of {}", sp, if json_like { "JSON" } else { "YAML" }, via, got.to_json(), doc.to_json()), sig);
+            }
+            Err(e) => return fail(format!("the number spelling `{}` via {}: {}", sp, via, e), format!("c11:number-spelling:{}", via)),
+        }
+    }
+    // the `test` command: the same text as `input` of a spec file named .json and .yaml
+    let (probe_rules, _) = probes(&doc);
+    let names: Vec<String> = probe_rules.lines().filter(|l| l.starts_with("rule ")).map(|l| l[5..].split(' ').next().unwrap().to_string()).collect();
+    let exps: Vec<String> = names.iter().map(|n| format!("\"{}\": \"PASS\"", n)).collect();
+    let flow = format!("{{\"a\": {}, \"b\": [{}, \"x\"]}}", sp, sp);
+    let spec = format!("[{{\"name\": \"s\", \"input\": {}, \"expectations\": {{\"rules\": {{{}}}}}}}]", flow, exps.join(", "));
+    for ext in ["json", "yaml", "JSON", "jsn"] {
+        let dir = fresh_dir("c11s");
+        let rp = dir.join("p.guard");
+        let tp = dir.join(format!("p_tests.{}", ext));
+        write_file(&rp, &probe_rules);
+        write_file(&tp, &spec);
+        for fmt in [Fmt::Single, Fmt::Json] {
+            evals += 1;
+            let r = test_files(&rp.to_string_lossy(), &tp.to_string_lossy(), &TOpts { fmt, verbose: false, alphabetical: false, last_modified: false });
+            if let Some(p) = &r.panic {
+                return fail(format!("test (.{}): panic {}", ext, p), format!("panic:{}", p.split(' ').next().unwrap_or("")));
+            }
+            if r.code != Ok(0) {
+                return fail(format!("the number spelling `{}` as input of a test file named .{} ({:?}): the type / value probes do not all PASS (validate reads {}): {}", sp, ext, fmt, doc.to_json(), r.brief()), "c11:number-spelling:test".into());
+            }
+        }
+    }
+    CaseResult::Pass(Info { nontrivial: true, key: hash_case(&[sp, if json_like { "j" } else { "y" }]), classes: vec!["number-spelling".into()], evals, sample: Some(json!({"spelling": sp, "json": json_like})) })
+}
+
 pub fn replay(case: &J) -> CaseResult {
+    if case["kind"] == "spelling" {
+        return spelling_check(case["index"].as_u64().unwrap_or(0) as usize);
+    }
     if case["kind"] == "negative" {
         return negative_check(case["text"].as_str().unwrap_or(""), case["why"].as_str().unwrap_or(""));
     }
@@ -477,6 +548,7 @@ pub fn run(tier: Tier, seed: u64) -> i32 {
     execute("C11", tier, seed, spec, &replay, &|run: &Session| {
         run.run_enum("tags", TAGS.len() * 6, tag_case);
         run.run_enum("negatives", NEGATIVES.len(), |i| negative_check(NEGATIVES[i].0, NEGATIVES[i].1));
+        run.run_enum("number-spellings", NUMBER_SPELLINGS.len() * 2, spelling_check);
         run.run_random("documents", tier.pick(40_000, 1_000_000), 400, |u| random_case(u, tier.pick(3, 4)));
     })
 }
